@@ -75,6 +75,9 @@ type Opts struct {
 	Hops          int
 	// Mutate lets a check adjust the configuration before the proxy starts.
 	Mutate func(*Config, Plan)
+	// PreStart runs after every driver endpoint is bound and before the proxy is
+	// started (e.g. to replace backend addresses by host names and start a DNS server).
+	PreStart func(*World) error
 }
 
 // ServiceNames returns the `name:` value of service s.
@@ -210,6 +213,11 @@ func NewWorld(bin, dir string, o Opts) (*World, error) {
 			}
 		}
 		w.Svcs = append(w.Svcs, sv)
+	}
+	if o.PreStart != nil {
+		if err := o.PreStart(w); err != nil {
+			return nil, err
+		}
 	}
 	if err := w.StartProxy(); err != nil {
 		return nil, err
